@@ -474,7 +474,11 @@ func ruleEarlyGuards(c *Ctx, r *R) {
 					switch {
 					case labelled:
 						r.check(!reachableWithout(fn, b, func(bb *ssa.BasicBlock, i int) bool { return callTrueEdge(bb, i, "hasLabel") }), key+":label", site, "label lookup tested", "a labelled break/continue node is built on a path where the label lookup (hasLabel) was not tested true: jumps to unknown labels are accepted")
-						if tok == tokContinue {
+						if tok == tokContinue && recordedInScope(al) {
+							// the node is handed to the scope for validation against its target when the labelled
+							// statement ends (the stronger test: the label must belong to a loop); inIteration adds nothing
+							r.ok(key+":iteration", site, "the labelled continue is recorded in the parser scope for validation against the statement its label names")
+						} else if tok == tokContinue {
 							r.check(!reachableWithout(fn, b, func(bb *ssa.BasicBlock, i int) bool { return flagTrueEdge(bb, i, "inIteration") }), key+":iteration", site, "inIteration tested", "a labelled continue node is built on a path where inIteration was not tested true: `lbl: { continue lbl; }` outside any loop is accepted (ES5 §12.7: continue must target an iteration statement)")
 						}
 					case tok == tokBreak:
@@ -646,4 +650,43 @@ func rulePairParserFlags(c *Ctx, r *R) {
 			}
 		}
 	}
+}
+
+// recordedInScope: the node allocated by al is appended to a slice field of the parser's scope.
+func recordedInScope(al *ssa.Alloc) bool {
+	for _, ref := range *al.Referrers() {
+		st, ok := ref.(*ssa.Store)
+		if !ok || st.Val != ssa.Value(al) {
+			continue
+		}
+		ia, ok := st.Addr.(*ssa.IndexAddr)
+		if !ok {
+			continue
+		}
+		arr, ok := ia.X.(*ssa.Alloc)
+		if !ok {
+			continue
+		}
+		for _, r2 := range *arr.Referrers() {
+			sl, ok := r2.(*ssa.Slice)
+			if !ok {
+				continue
+			}
+			for _, r3 := range *sl.Referrers() {
+				call, ok := r3.(*ssa.Call)
+				if !ok {
+					continue
+				}
+				if bi, ok := call.Call.Value.(*ssa.Builtin); !ok || bi.Name() != "append" {
+					continue
+				}
+				if a := loadAddr(call.Call.Args[0]); a != nil {
+					if nt, _ := fieldOfAddr(a); nt != nil && nt.Obj().Name() == "scope" {
+						return true
+					}
+				}
+			}
+		}
+	}
+	return false
 }
